@@ -81,9 +81,11 @@ func (ctx *LeafGroupingContext) ForkGroupingTask() {
 
 // CompleteGroupingTask completes a grouping task, if all grouping tasks are completed, do collect grouping tag values.
 func (ctx *LeafGroupingContext) CompleteGroupingTask() {
-	ctx.groupingRelatedTasks.Dec()
-
-	ctx.collectGroupByTagValues()
+	// NOTE: only the task which completes last does collect, must use the result of dec,
+	// if reads the counter again, tasks which complete at the same time all see zero(collect twice).
+	if ctx.groupingRelatedTasks.Dec() == 0 {
+		ctx.collectGroupByTagValues()
+	}
 }
 
 // collectGroupByTagValues collects group tag values
